@@ -25,7 +25,7 @@ import Nstd.Sha.Spec
                       (model side: the generated `Transform` of the selected configuration)
   A digest line is `FAULT` when the model's ghost flag recorded an out-of-range array read.
   The observable is the digest; `update`/`rst` print `ok` only.
-  `update`/`updatenull`/`final` execute the bodies TRANSLATED from the sources (`Nstd.Generated.Sha256Body`), `hash`/`hmac`
+  `update`/`updatenull`/`final`/`rst` execute the bodies TRANSLATED from the sources (`Nstd.Generated.Sha256Body`), `hash`/`hmac`
   the hand-written model functions (proved equal: `generated_bodies_are_the_model`), so both are tied to the real code.
 -/
 open Nstd.Common
@@ -61,7 +61,7 @@ structure DState where
 
 def stepSha (st : Sha) (ws : List String) : Sha × String :=
   match ws with
-  | ["rst"] => (reset st, "ok")
+  | ["rst"] => (Nstd.Generated.Sha256Body.reset st, "ok")
   | ["final"] => let r := Nstd.Generated.Sha256Body.finalize st; (r.2, digestLine r.2.ok r.1)
   | ["setcount", n] =>
     match n.toNat? with
